@@ -822,7 +822,21 @@ RULE = ('histories of 6-14 bundles (1-3 user actions each) on a real document wi
         'values, removes, renames and Int<->Numeric type changes of data/formula columns, undo of the previous '
         'bundle (also undo of undo). A bundle is non-trivial when the trigger formula was evaluated for some row '
         'or the property allows/requires an evaluation.')
-TRUSTED = ['Model/Trigger.v [mech_*]: hand-written model of the four code sites, compared on every run with the '
+TRUSTED = ['harness/tg2v.py (+ tg2v_specs.py): fail-closed translator Python -> Gallina of the deciding code '
+           '(schema.RecalcWhen, docmodel recalcOnChangesToSelf, SingleRowsIdentityRelation.get_affected_rows, '
+           'column.is_formula, Engine.prevent_recalc / trim_update_action / invalidate_column / invalidate_records / '
+           'add_records / _maybe_update_trigger_dependencies, DocActions.Bulk{Add,Update,Remove}Record, the trigger '
+           'parts of UserActions.doBulkAddOrReplace / doBulkUpdateRecord) into coq/gen/Trigger_gen.v on every run; '
+           'validated on every run: generated effect lists (vm_compute) against the calls of Engine.prevent_recalc / '
+           'DepGraph.invalidate_deps / add_edge the running engine makes for the same record actions, and the pure '
+           'generated functions against the running Python functions on generated arguments',
+           'glue of the translated functions (undo/summary bookkeeping, cell writes, checks on metadata tables) and 21 '
+           'untranslated functions (apply_user_actions, _recompute_step, invalidate_deps, RenameColumn, ...) are pinned '
+           'by the hash of their normalised AST',
+           'Proofs/Trigger_bridge.v [run_eff]: the meaning of an effect for the trigger column (what invalidate_deps '
+           'reaches = Model/Trigger.v [reach]) is hand-written',
+           'Model/Trigger.v [mech_*]: hand-written model of the four code sites, proved pointwise equal to the '
+           'generated code (C15_bridge_*) and compared on every run with the '
            'engine (rows for which Engine._recompute_one_cell evaluates the trigger column per bundle, and the '
            'table contents) by vm_compute replay of the same histories',
            'Model/Trigger.v [spec_*]: the property sentence; compared on every run with the independent Python '
@@ -840,11 +854,16 @@ ASSUMPTIONS = ['kernel scope: one table, int cell values, formula columns readin
                'the sentence leaves open (and the theorems say so: must <= fired <= may): a dependency written '
                'with the value it has, recomputed to the value it has, or a formula column written by a replayed '
                'doc action']
-TECHNIQUE = 'Coq proof over a hand-written mechanism model + declarative spec; model tied by vm_compute replay of real engine histories; Python oracle search'
+TECHNIQUE = ('Coq proof over code regenerated from source on every run (tg2v) bridged pointwise to a hand-written '
+             'mechanism model + declarative spec; translator validated against effect traces of the running engine; '
+             'model also tied by vm_compute replay of real engine histories; Python oracle search')
 LEVEL_TEXT = ('Kernel-checked: for every configuration, table and bundle of user actions the mechanism model fires the '
               'trigger formula for a row whenever the property requires it and only when it allows it, provided none '
               'of five named transitions occurs; each of the five is refuted by a vm_compute witness that also fails '
-              'on the real engine (registered known findings); schema-only bundles never fire, unconditionally.')
+              'on the real engine (registered known findings); schema-only bundles never fire, unconditionally. '
+              'The record-action part of the mechanism is the code itself: C15_bridge_* prove the functions '
+              'translated from /repo on every run equal to the model, and C15_code_* restate the property about the '
+              'rows the generated code fires (cfired).')
 LEVEL_NOTE = ('Strength: kernel. Trusted: Coq kernel; the hand-written model (validated per run against '
               'Engine._recompute_one_cell on random histories). Partial: C15_trigger_fires_iff holds only under '
               '[regular]; the full statement is refuted five ways (one root cause each).')
